@@ -19,7 +19,7 @@ def regenerate():
                 'namespace Rbql.Generated\ndef moduleLevelMutable : List String := []\ndef globalsDeclared : List String := []\n'
                 'def writtenOnQueryPath : List String := ["<scan failed>"]\ndef classLevelMutable : List String := []\ndef mutableDefaults : List String := []\ndef sharedInstancesUsed : List String := []\n'
                 'def frontendWrittenOnQueryPath : List String := ["<scan failed>"]\ndef frontendClassLevelMutable : List String := []\ndef frontendMutableDefaults : List String := []\n'
-                'def frontendSharedInstancesUsed : List String := []\nend Rbql.Generated\n' % str(e)[:200].replace('\n', ' '))
+                'def frontendSharedInstancesUsed : List String := []\ndef frontendCallerObjectsWritten : List String := []\nend Rbql.Generated\n' % str(e)[:200].replace('\n', ' '))
     common.write_if_changed(common.LEAN_DIR / 'Rbql' / 'Generated' / 'SharedState.lean', text)
     regenerate_row_flow()
 
